@@ -147,4 +147,11 @@ theorem estLevel_ge (L l : Nat) (h1 : 1 ≤ l) (h2 : l ≤ L) : estLevelInternal
   simp only [e] at this
   exact this
 
+/-- the run-time domination test decides `Le` -/
+theorem leB_sound (p q : RP) (h : leB p q = true) : Le p q := by
+  unfold leB at h
+  simp only [Bool.and_eq_true, decide_eq_true_eq] at h
+  obtain ⟨⟨⟨⟨⟨⟨⟨⟨⟨⟨⟨⟨h1, h2⟩, h3⟩, h4⟩, h5⟩, h6⟩, h7⟩, h8⟩, h9⟩, h10⟩, h11⟩, h12⟩, h13⟩ := h
+  exact ⟨h1, h2, h3, h4, h5, h6, h7, h8, h9, h10, h11, h12, h13⟩
+
 end ZstdVerif.Estimate
